@@ -316,7 +316,14 @@ def programs(tier, rnd):
 
 
 def cases(tier, seed, rnd):
-    return [dict(idx=i, name=n) for i, (n, _) in enumerate(programs(tier, rnd))]
+    ps = programs(tier, rnd)
+    # every program also through its DUAL formula do_math(primal=False): general objective vectors (leading negative
+    # coefficients), free / sign-constrained multipliers, equality rows - the primal formula never has them in row 0
+    return [dict(idx=i, name=n) for i, (n, _) in enumerate(ps)] + [dict(idx=i, name=n, dual=True) for i, (n, _) in enumerate(ps)]
+
+
+def formula_of(m, dual):
+    return m.do_math(primal=False) if dual else m.do_math()
 
 
 def run_case(case, ses):
@@ -327,7 +334,15 @@ def run_case(case, ses):
     name, mk = progs[case['idx']]
     with quiet():
         m = mk()
-        f = m.do_math()
+        if case.get('dual'):
+            name = name + ':dual'
+            try:
+                f = formula_of(m, True)
+            except Exception:  # noqa  (no dual formula for this program)
+                ses.stats.kinds['dual-formula-not-available'] = ses.stats.kinds.get('dual-formula-not-available', 0) + 1
+                return
+        else:
+            f = m.do_math()
     P = CProg(f)
     ses.stats.programs += 1
     vs = [z3.Real('x%d' % (j + 1)) for j in range(P.n)]
@@ -490,7 +505,7 @@ def replay(data, verbose=False):
     name, mk = progs[data['idx']]
     with quiet():
         m = mk()
-        f = m.do_math()
+        f = formula_of(m, bool(data.get('dual')))
     if 'point' not in data:
         if verbose:
             print(name, data.get('what'))
